@@ -18,7 +18,7 @@ def prop(pid, **kw):
 
 prop(
     "C04",
-    lean_modules=["BloomVerif.Bridge.Leaf", "BloomVerif.Lemmas.NumVal", "BloomVerif.Props.C04"],
+    lean_modules=["BloomVerif.Bridge.Leaf", "BloomVerif.Bridge.PreCond", "BloomVerif.Lemmas.NumVal", "BloomVerif.Props.C04"],
     technique="Lean 4 proof (range-cover theorem over Rat/±inf, monotone lift through AND/OR trees) + regenerated Go->Lean leaf evaluators with bridge lemmas + differential correspondence",
     design_ref="DESIGN.md section 4 C04",
     text="Machine-checked proof that a block whose metadata covers a row is kept by every prefilter tree the row's exact values satisfy "
@@ -60,7 +60,7 @@ prop(
 
 prop(
     "C02",
-    lean_modules=["BloomVerif.Lemmas.Content", "BloomVerif.Lemmas.Exact", "BloomVerif.Props.C02"],
+    lean_modules=["BloomVerif.Bridge.PreCond", "BloomVerif.Lemmas.Content", "BloomVerif.Lemmas.Exact", "BloomVerif.Props.C02"],
     technique="Lean 4 proof (query = filter of selected blocks' rows, as list equality; sublist for multiplicity) + differential correspondence per (query,row) and end to end with block-level layout read back",
     design_ref="DESIGN.md section 4 C02",
     text="Machine-checked theorems: every returned row is stored and satisfies the documented semantics whatever the filters answer (query_sound); the answer is a sublist of the stored rows (multiplicity); "
@@ -278,7 +278,7 @@ prop(
     technique="Lean 4 refinement proof (directory-with-inodes model of FileSystemDataStore refines a per-pointer specification for every disciplined call sequence) + proved counterexample for the full statement + call-by-call differential against the real store on a temporary directory with a scripted name draw",
     design_ref="DESIGN.md section 4 C16",
     text="Partial, with a known finding. Machine-checked: for every sequence of CreateFile (any name-draw script, collisions included), Write, Close, Abort, TombstoneFile, OpenFile in which a pointer is tombstoned only after its writer was closed or aborted and Abort is not repeated on an unpublished writer that already finished (Abort after a successful Close is allowed and a no-op), the directory refines the specification "
-         "(a scan lists exactly the published, untombstoned pointers with exactly their bytes; CreateFile never changes another pointer's files; TombstoneFile leaves neither .dat nor .tmp). The full statement is false of the unchanged code: tombstoning a pointer whose writer is still open frees the name, "
+         "(per step and, by C16_refinement_history_partial, after any allowed sequence from the empty directory: a scan lists exactly the published, untombstoned pointers with exactly their bytes; CreateFile never changes another pointer's files; TombstoneFile leaves neither .dat nor .tmp). The full statement is false of the unchanged code: tombstoning a pointer whose writer is still open frees the name, "
          "a later CreateFile can draw it again, and the first writer's Close then renames over the second writer's file (theorem C16_counterexample; reproduced on the real store by the check; known finding). "
          "The real store is driven through random sequences (disciplined and not) and must equal the model in every call result and in the final raw directory content.",
     trusted_base=FS_TB,
@@ -287,11 +287,11 @@ prop(
 
 prop(
     "C15",
-    lean_modules=["BloomVerif.Lemmas.Crash", "BloomVerif.Props.C15"],
+    lean_modules=["BloomVerif.Lemmas.Crash", "BloomVerif.Lemmas.CrashHistory", "BloomVerif.Props.C15"],
     technique="Lean 4 proof over a crash model (current view + durable view + per-inode synced length; process crash and power loss as relations) for every mutation boundary of the flush / failed-flush protocols + proved counterexamples for merges + crash-point enumeration on the real store (verifFS hook, every boundary reopened by a fresh engine) + strace syscall-shape conformance",
     design_ref="DESIGN.md section 4 C15",
     text="Partial, with a known finding. Machine-checked for any number and size of writes and any starting directory: at every mutation boundary of a flush, after a process crash or any power-loss state, the pointer's final name is absent, the empty reservation, or the complete file; after Close returned (before the acknowledgement) "
-         "every crash state holds the complete file; a failed flush (Abort then TombstoneFile) never leaves content. The statement is false for merges with FileSystemDataStore as MetaStore: the sources are removed one by one after the output is published and the removals are not fsynced "
+         "every crash state holds the complete file; a failed flush (Abort then TombstoneFile) never leaves content; and over whole histories of successful and failed flushes with distinct names, at every mutation boundary every flush completed so far is durably bound to its complete content in every crash state (C15_history_survives_crash) while failed ones stay invisible. The statement is false for merges with FileSystemDataStore as MetaStore: the sources are removed one by one after the output is published and the removals are not fsynced "
          "(theorems C15_merge_counterexample / C15_merge_power_loss_counterexample; reproduced on the real store; known finding). "
          "The check records every filesystem mutation of random flush / failed-flush / merge histories, compares the model's current view with the real directory at every boundary, materialises every process-crash and power-loss state and queries it with a fresh engine; "
          "a child process under strace must issue exactly the syscall sequence (O_EXCL creates, writes, fsync, rename, directory fsync, unlinks) of the model's protocols.",
@@ -361,7 +361,7 @@ prop(
 
 prop(
     "C24",
-    lean_modules=["BloomVerif.Props.C24"],
+    lean_modules=["BloomVerif.Bridge.PreCond", "BloomVerif.Props.C24"],
     technique="Lean 4 proof on the read-plan model (open requires surviving blocks and a passing file filter; a row read requires prefilter and block-filter pass; no region read without conditions) + comparison of every read extent of the auditing store with the plan",
     design_ref="DESIGN.md section 4 C24",
     text="Machine-checked for the plan; on real layouts every OpenFile and every successful read extent [offset, length) logged by the auditing DataStore during fault-free, uncancelled queries must be explained by the plan: only planned files are opened, row data is read only of blocks the plan scans, "
